@@ -195,6 +195,10 @@ def _decides_one_of(eng, q, ev):
 
 
 def _cause(eng, p, x, m, s, sigs, expected_args):
+    from . import refuted_at_defaults
+
+    if refuted_at_defaults(eng, "common.checkformat_delegating_metadata", (m[1],), set(p.facts) | set(x.conds)):
+        return "an optional parameter outside the documented signature has a non-default value"
     facts = set(p.facts) | set(x.conds)
     top = x.chain[0]
     if x.origin == "explicit" and all(own_site(eng, st_, "common.checkformat_delegating_metadata") for st_ in x.chain):
